@@ -435,6 +435,7 @@ type FuncContract struct {
 	Measure  *Clause  // recursion measure
 	HitSites map[string]bool // call sites counted by hits("name#k")
 	ResSites map[string]bool // call sites whose last result is recorded for lastresult("name#k")
+	Snaps    map[string][]SExpr // call site -> expressions whose value right after that call is recorded (snapshot("name#k", e))
 	AtCalls  []*Clause // assertions after the k-th call of a callee: Tag2 = "callee#k"
 	Assumes  []*Clause // loop-head assumptions (listed in evidence, not proved)
 	Steps    []*Clause // per-iteration relations, checked at every back edge; prev(e) is e at the head of the iteration
@@ -992,6 +993,66 @@ func (c *FuncContract) tagUntaggedSince(mark []int, props []string) {
 			if len(cl.Props) == 0 {
 				cl.Props = append([]string{}, props...)
 			}
+		}
+	}
+}
+
+// walkSExpr visits every node of a spec expression.
+func walkSExpr(e SExpr, f func(SExpr)) {
+	if e == nil {
+		return
+	}
+	f(e)
+	switch n := e.(type) {
+	case *SUnary:
+		walkSExpr(n.X, f)
+	case *SBinary:
+		walkSExpr(n.X, f)
+		walkSExpr(n.Y, f)
+	case *SCond:
+		walkSExpr(n.C, f)
+		walkSExpr(n.A, f)
+		walkSExpr(n.B, f)
+	case *SCall:
+		for _, a := range n.Args {
+			walkSExpr(a, f)
+		}
+	case *SSel:
+		walkSExpr(n.X, f)
+	case *SIndex:
+		walkSExpr(n.X, f)
+		walkSExpr(n.I, f)
+	case *SSlice:
+		walkSExpr(n.X, f)
+		walkSExpr(n.Lo, f)
+		walkSExpr(n.Hi, f)
+	}
+}
+
+// collectSnaps records the snapshot("site", e) terms of all clauses of a function contract.
+func (c *FuncContract) collectSnaps() {
+	sets := [][]*Clause{c.Requires, c.Ensures, c.Invs, c.Decs, c.Assumes, c.Steps, c.Exits, c.AtCalls}
+	for _, set := range sets {
+		for _, cl := range set {
+			walkSExpr(cl.Expr, func(n SExpr) {
+				call, ok := n.(*SCall)
+				if !ok || call.Fn != "snapshot" || len(call.Args) != 2 {
+					return
+				}
+				site, ok := call.Args[0].(*SStr)
+				if !ok {
+					return
+				}
+				if c.Snaps == nil {
+					c.Snaps = map[string][]SExpr{}
+				}
+				for _, have := range c.Snaps[site.V] {
+					if have.String() == call.Args[1].String() {
+						return
+					}
+				}
+				c.Snaps[site.V] = append(c.Snaps[site.V], call.Args[1])
+			})
 		}
 	}
 }
